@@ -24,6 +24,9 @@ func protectedGenesis(rng *rand.Rand) (GenesisSpec, []int64) {
 		end := pick(rng, int64(-500), 12, 40, 200, 5000, 86400*400)
 		v := GenVesting{Kind: kinds[rng.IntN(len(kinds))], Wallet: i, StartOff: -1000, EndOff: end,
 			Amount: pick(rng, "1000000000000000000", "50000000000000000000")}
+		if end > 5000 && rng.IntN(3) == 0 {
+			v.StartOff = pick(rng, int64(100), 3000) // a schedule that has not started yet: everything is still locked
+		}
 		switch rng.IntN(3) {
 		case 0:
 			v.Delegated = true // balance zero: an empty vesting account
